@@ -6,12 +6,24 @@ From Verif Require Import Base.Val.
 (* BaseSystemUnmergeProtection._preserve_sequence, verbatim *)
 Definition preserve_sequence : list str := [[47;117;115;114]%N; [47;117;115;114;47;108;105;98]%N; [47;117;115;114;47;108;105;98;54;52]%N; [47;117;115;114;47;108;105;98;51;50]%N; [47;117;115;114;47;98;105;110]%N; [47;117;115;114;47;115;98;105;110]%N; [47;98;105;110]%N; [47;115;98;105;110]%N; [47;108;105;98]%N; [47;108;105;98;51;50]%N; [47;108;105;98;54;52]%N; [47;101;116;99]%N; [47;118;97;114]%N; [47;104;111;109;101]%N; [47;114;111;111;116]%N].
 (* /usr, /usr/lib, /usr/lib64, /usr/lib32, /usr/bin, /usr/sbin, /bin, /sbin, /lib, /lib32, /lib64, /etc, /var, /home, /root *)
-(* trigger priorities (class attribute, inherited from `base` when not overridden) *)
-Definition prot_priority : Z := (-100)%Z.
-Definition unmerge_priority : Z := 50%Z.
 (* errno values the rmdir loop of unmerge_contents ignores: ENOTEMPTY, ENOENT, ENOTDIR, EBUSY, EEXIST *)
 Definition rmdir_ignored : list N := [39%N; 2%N; 20%N; 16%N; 17%N].
 Definition E_NOENT : N := 2%N.
 Definition E_NOTDIR : N := 20%N.
 Definition E_NOTEMPTY : N := 39%N.
 Definition E_BUSY : N := 16%N.
+
+(* merge/const.py *)
+Definition REPLACE_MODE : N := 0%N.
+Definition INSTALL_MODE : N := 1%N.
+Definition UNINSTALL_MODE : N := 2%N.
+(* default_plugins_triggers(): (class name, priority, _hooks, _engine_types) in source order; the
+   function returns them sorted(reverse=True, key=(priority, name)); execute_hook runs
+   sorted(hooks[hook], key=priority) - both shapes are checked when this file is generated *)
+Definition default_triggers : list (str * Z * list str * option (list N)) :=
+  [([108;100;99;111;110;102;105;103]%N, 10%Z, [[112;114;101;95;109;101;114;103;101]%N; [112;111;115;116;95;109;101;114;103;101]%N; [112;114;101;95;117;110;109;101;114;103;101]%N; [112;111;115;116;95;117;110;109;101;114;103;101]%N], (@None (list N))); ([109;101;114;103;101]%N, 50%Z, [[109;101;114;103;101]%N], (Some [0%N; 1%N])); ([117;110;109;101;114;103;101]%N, 50%Z, [[117;110;109;101;114;103;101]%N], (Some [0%N; 2%N])); ([102;105;120;95;117;105;100;95;112;101;114;109;115]%N, 50%Z, [[112;114;101;95;109;101;114;103;101]%N], (Some [0%N; 1%N])); ([102;105;120;95;103;105;100;95;112;101;114;109;115]%N, 50%Z, [[112;114;101;95;109;101;114;103;101]%N], (Some [0%N; 1%N])); ([102;105;120;95;115;101;116;95;98;105;116;115]%N, 50%Z, [[112;114;101;95;109;101;114;103;101]%N], (Some [0%N; 1%N])); ([100;101;116;101;99;116;95;119;111;114;108;100;95;119;114;105;116;97;98;108;101]%N, 50%Z, [[112;114;101;95;109;101;114;103;101]%N], (Some [0%N; 1%N])); ([73;110;102;111;82;101;103;101;110]%N, 50%Z, [[112;114;101;95;109;101;114;103;101]%N; [112;111;115;116;95;109;101;114;103;101]%N; [112;114;101;95;117;110;109;101;114;103;101]%N; [112;111;115;116;95;117;110;109;101;114;103;101]%N], (@None (list N))); ([67;111;109;109;111;110;68;105;114;101;99;116;111;114;121;77;111;100;101;115]%N, 50%Z, [[112;114;101;95;109;101;114;103;101]%N], (Some [0%N; 1%N])); ([66;97;115;101;83;121;115;116;101;109;85;110;109;101;114;103;101;80;114;111;116;101;99;116;105;111;110]%N, (-100)%Z, [[117;110;109;101;114;103;101]%N], (Some [0%N; 2%N]))].
+(* MergeEngine.install_hooks / uninstall_hooks (replace_hooks is their union) *)
+Definition install_hooks : list str := [[115;97;110;105;116;121;95;99;104;101;99;107]%N; [112;114;101;95;109;101;114;103;101]%N; [109;101;114;103;101]%N; [112;111;115;116;95;109;101;114;103;101]%N; [102;105;110;97;108]%N].
+Definition uninstall_hooks : list str := [[115;97;110;105;116;121;95;99;104;101;99;107]%N; [112;114;101;95;117;110;109;101;114;103;101]%N; [117;110;109;101;114;103;101]%N; [112;111;115;116;95;117;110;109;101;114;103;101]%N; [102;105;110;97;108]%N].
+Definition name_unmerge : str := [117;110;109;101;114;103;101]%N.                       (* trigger class and hook *)
+Definition name_protection : str := [66;97;115;101;83;121;115;116;101;109;85;110;109;101;114;103;101;80;114;111;116;101;99;116;105;111;110]%N.
